@@ -499,6 +499,7 @@ std::string op_to_json(const Op &op) {
     char tmp[32];
     for (int i = 0; i < MAXA; i++) { snprintf(tmp, sizeof tmp, "%s%lld", i ? "," : "", (long long)op.a[i]); s += tmp; }
     s += "]";
+    if (op.late) s += ",\"reuses_buffers_of_an_earlier_call\":1";
     if (!op.blobs.empty()) {
         s += ",\"blobs\":[";
         for (size_t i = 0; i < op.blobs.size(); i++) {
